@@ -6,6 +6,7 @@ import (
 	"runtime"
 	"testing"
 	"testing/synctest"
+	"time"
 
 	"verifharness/ev"
 	"verifharness/memhttp"
@@ -26,6 +27,13 @@ type GuardResult struct {
 // timers are pending in sequential explorers).  On a hang the transports are
 // aborted so that the bubble can be left.
 func Guarded(f func(), trs ...*memhttp.Transport) GuardResult {
+	return GuardedFor(0, f, trs...)
+}
+
+// GuardedFor is Guarded for operations that sleep or set timers on the
+// bubble's fake clock: before deciding that f hangs, fake time is advanced by
+// horizon (every timer due earlier fires in order, at no wall-clock cost).
+func GuardedFor(horizon time.Duration, f func(), trs ...*memhttp.Transport) GuardResult {
 	var res GuardResult
 	done := make(chan struct{})
 	go func() {
@@ -45,6 +53,15 @@ func Guarded(f func(), trs ...*memhttp.Transport) GuardResult {
 	case <-done:
 		return res
 	default:
+	}
+	if horizon > 0 {
+		time.Sleep(horizon)
+		synctest.Wait()
+		select {
+		case <-done:
+			return res
+		default:
+		}
 	}
 	res.Hung = true
 	buf := make([]byte, 1<<16)
